@@ -129,12 +129,12 @@ type FieldDef struct {
 }
 
 type TypeDef struct {
-	Kind          string       `json:"kind"`
-	Name          string       `json:"name"`
-	Fields        []FieldDef   `json:"fields"`
-	InputFields   []InputValue `json:"inputFields"`
+	Kind          string                  `json:"kind"`
+	Name          string                  `json:"name"`
+	Fields        []FieldDef              `json:"fields"`
+	InputFields   []InputValue            `json:"inputFields"`
 	EnumValues    []struct{ Name string } `json:"enumValues"`
-	PossibleTypes []TypeRef    `json:"possibleTypes"`
+	PossibleTypes []TypeRef               `json:"possibleTypes"`
 }
 
 type Model struct {
@@ -174,14 +174,14 @@ func (r TypeRef) named() TypeRef {
 // ---------- query generation from the advertised model ----------
 
 type Node struct {
-	Kind string  `json:"kind"` // field inline
-	Name string  `json:"name,omitempty"`
-	Key  string  `json:"key,omitempty"`
-	Args string  `json:"args,omitempty"`
-	On   string  `json:"on,omitempty"`
-	Sub  []*Node `json:"sub,omitempty"`
-	HasSub bool  `json:"has_sub,omitempty"`
-	fd   *FieldDef
+	Kind             string  `json:"kind"` // field inline
+	Name             string  `json:"name,omitempty"`
+	Key              string  `json:"key,omitempty"`
+	Args             string  `json:"args,omitempty"`
+	On               string  `json:"on,omitempty"`
+	Sub              []*Node `json:"sub,omitempty"`
+	HasSub           bool    `json:"has_sub,omitempty"`
+	fd               *FieldDef
 	underUnionOrList bool
 }
 
@@ -230,7 +230,7 @@ func (m *Model) genSel(t *rapid.T, typeName string, depth int, under bool) []*No
 	switch td.Kind {
 	case "UNION":
 		if rapid.Bool().Draw(t, "utypename") {
-			out = append(out, &Node{Kind: "field", Name: "__typename", Key: "__typename"})
+			out = append(out, &Node{Kind: "field", Name: "__typename", Key: typenameKey(t)})
 		}
 		for _, pt := range td.PossibleTypes {
 			if rapid.IntRange(0, 4).Draw(t, "cover") > 0 {
@@ -262,7 +262,7 @@ func (m *Model) genSel(t *rapid.T, typeName string, depth int, under bool) []*No
 			case 0:
 				if !seen["__typename"] {
 					seen["__typename"] = true
-					out = append(out, &Node{Kind: "field", Name: "__typename", Key: "__typename"})
+					out = append(out, &Node{Kind: "field", Name: "__typename", Key: typenameKey(t)})
 				}
 			case 1:
 				if depth > 0 {
@@ -316,6 +316,15 @@ func (m *Model) genSel(t *rapid.T, typeName string, depth int, under bool) []*No
 		}
 	}
 	return out
+}
+
+// typenameKey: __typename is selected under its own name or, one time in three, under an alias
+func typenameKey(t *rapid.T) string {
+	if rapid.IntRange(0, 2).Draw(t, "typenamealias") == 0 {
+		keyCounter++
+		return fmt.Sprintf("k%d_kind", keyCounter)
+	}
+	return "__typename"
 }
 
 func refString(r TypeRef) string {
@@ -636,12 +645,12 @@ func (m *Model) illSharedFragment(t *rapid.T) (string, bool) {
 }
 
 type Case struct {
-	Spec  *world.Spec `json:"spec"`
-	Modes world.Modes `json:"modes"`
-	Query string      `json:"query"`
-	Sel   []*Node     `json:"sel,omitempty"`
-	Ill   string      `json:"ill,omitempty"`
-	IllKind string    `json:"ill_kind,omitempty"`
+	Spec    *world.Spec `json:"spec"`
+	Modes   world.Modes `json:"modes"`
+	Query   string      `json:"query"`
+	Sel     []*Node     `json:"sel,omitempty"`
+	Ill     string      `json:"ill,omitempty"`
+	IllKind string      `json:"ill_kind,omitempty"`
 }
 
 func genModes(t *rapid.T, s *world.Spec) world.Modes {
